@@ -40,7 +40,7 @@ impl MemoryAllocation {
             panic_allocate_too_much()
         } else {
             #[cfg(dashu_verif)]
-            let _site = crate::verif::FallibleSite::enter();
+            let _site = crate::verif::FallibleSite::enter_at(crate::verif::SITE_SCRATCH);
             // SAFETY: it's checked above that layout.size() != 0.
             let ptr = unsafe { alloc::alloc::alloc(layout) };
             if ptr.is_null() {
